@@ -6,7 +6,7 @@ import ast
 from sa import flow
 from sa.model import AnalysisError, dotted, names_in, unparse
 from sa.rules import LEVEL_TEXT, rule
-from sa.rules.util import is_self_attr, iter_body_nodes
+from sa.rules.util import is_self_attr, iter_body_nodes, locals_defined_by, one_local, pfind, pmatch
 
 LEVEL_TEXT["C14"] = (
     "Decides structural necessary conditions of C14: every Blockwise class resolves _task to a total provider; Fused takes "
@@ -142,38 +142,57 @@ def r14d(ctx):
         ctx.ok("_expr.is_valid_blockwise_op", mod.loc(fn), f"Blockwise and not {sorted(excl)}")
     else:
         ctx.bad("_expr.is_valid_blockwise_op", mod.loc(fn), f"fusion eligibility is `{txt}`: must require Blockwise and exclude {sorted(need - excl)} (their tasks embed data / foreign keys, not (name, index) keys of a dependency)")
-    # group substitution
-    t = ast.unparse(outer)
-    good = "Fused(group" in t.replace(" ", "") or "Fused(" in t
-    sub_ok = "substitute(group[0]" in t.replace(" ", "")
-    size_ok = "len(group) > 1" in t
+    # the locals of the pass are identified by what they hold, not by their names
+    fp = next((n for n in ast.walk(outer) if isinstance(n, ast.FunctionDef) and n.name == "_fusion_pass"), None)
+    if fp is None:
+        raise AnalysisError("anchor vanished: _fusion_pass")
+    dependents = one_local(fp, "defaultdict(set)", "the consumers map of _fusion_pass")
+    fused = [c for c in ast.walk(fp) if isinstance(c, ast.Call) and dotted(c.func) == "Fused"]
+    if not fused:
+        raise AnalysisError("anchor vanished: Fused(...) construction in _fusion_pass")
+    group = ast.unparse(fused[0].args[0]) if fused[0].args else None
+    good = group is not None
+    sub_ok = bool(pfind(f"V_e.substitute({group}[0], V_new)", fp))
+    size_ok = any(pmatch(f"len({group}) > 1", n.test) is not None for n in ast.walk(fp) if isinstance(n, ast.If))
     # fusion condition: same partition count or broadcast, and all dependents inside the group
     cond = None
     for n in ast.walk(outer):
-        if isinstance(n, ast.If) and "_broadcast_dep(dep)" in ast.unparse(n.test):
+        if isinstance(n, ast.If) and pfind("V_n._broadcast_dep(V_dep)", n.test):
             cond = n
     if cond is None:
         raise AnalysisError("anchor vanished: fusion condition in optimize_blockwise_fusion")
-    terms = [ast.unparse(x) for x, pol in flow.conj_terms(cond.test, True)]
-    c1 = any("dep.npartitions == root.npartitions" in x and "_broadcast_dep(dep)" in x for x in terms)
-    c2 = any("dependents[dep._name]" in x and "group_names" in x and "stack_names" in x for x in terms)
+    dep = pfind("V_n._broadcast_dep(V_dep)", cond.test)[0][1]["V_dep"]
+    pterms = list(flow.conj_terms(cond.test, True))
+    terms = [x for x, pol in pterms]
+    c1 = any(pfind(f"{dep}.npartitions == V_root.npartitions", x) and pfind(f"V_n._broadcast_dep({dep})", x) for x in terms)
+    c2 = False
+    for x, pol in pterms:
+        cands = [pmatch(f"{dependents}[{dep}._name] - V_a - V_b", x)] if not pol else [b for _, b in pfind(f"not {dependents}[{dep}._name] - V_a - V_b", x)]
+        for bb in (c for c in cands if c is not None):
+            # the two subtracted sets are the names already in the group and those queued for it
+            da = locals_defined_by(fp, "{V_s._name for V_s in V_src}")
+            c2 = c2 or (bb["V_a"] in da and bb["V_b"] in da and bb["V_a"] != bb["V_b"])
     (ctx.ok if c1 and c2 else ctx.bad)(
         "_expr.optimize_blockwise_fusion:group-condition",
         mod.loc(cond),
         "member joins a group only with equal partition count (or broadcast) and all dependents inside" if c1 and c2 else f"fusion condition `{ast.unparse(cond.test)[:160]}` lost " + ("the partition-count / broadcast test" if not c1 else "the all-dependents-inside-the-group test"),
     )
     # another pass is needed iff roots remain AFTER the traversal appended new ones
-    fp = next((n for n in ast.walk(outer) if isinstance(n, ast.FunctionDef) and n.name == "_fusion_pass"), None)
-    if fp is None:
-        raise AnalysisError("anchor vanished: _fusion_pass")
-    last_append = max((n.lineno for n in ast.walk(fp) if isinstance(n, ast.Call) and ast.unparse(n.func) == "roots.append"), default=0)
+    roots = None
+    for w in ast.walk(fp):
+        if isinstance(w, ast.While) and isinstance(w.test, ast.Name) and flow.contains(w, fused[0]):
+            roots = w.test.id
+    if roots is None:
+        raise AnalysisError("anchor vanished: `while <roots>:` loop around the group construction")
+    last_append = max((n.lineno for n in ast.walk(fp) if isinstance(n, ast.Call) and ast.unparse(n.func) == f"{roots}.append"), default=0)
     defs = flow.Defs(fp)
-    for r in [x for x in ast.walk(fp) if isinstance(x, ast.Return) and isinstance(x.value, ast.Tuple) and len(x.value.elts) == 2 and "_ret" in ast.unparse(x.value.elts[0])]:
+    sub_names = {a.targets[0].id for a, _ in pfind(f"V_r = V_e.substitute({group}[0], V_new)", fp) if isinstance(a, ast.Assign) and isinstance(a.targets[0], ast.Name)}
+    for r in [x for x in ast.walk(fp) if isinstance(x, ast.Return) and isinstance(x.value, ast.Tuple) and len(x.value.elts) == 2 and (names_in(x.value.elts[0]) & sub_names or "substitute(" in ast.unparse(x.value.elts[0]))]:
         flag = r.value.elts[1]
-        fresh = "roots" in ast.unparse(flag)
+        fresh = roots in names_in(flag)
         if not fresh and isinstance(flag, ast.Name):
             ds = defs.reaching(flag.id, r)
-            fresh = bool(ds) and all(getattr(d.stmt, "lineno", 0) > last_append and d.value is not None and "roots" in ast.unparse(d.value) for d in ds)
+            fresh = bool(ds) and all(getattr(d.stmt, "lineno", 0) > last_append and d.value is not None and roots in names_in(d.value) for d in ds)
         (ctx.ok if fresh else ctx.bad)(
             "_expr.optimize_blockwise_fusion:done-flag",
             mod.loc(r),
@@ -181,17 +200,18 @@ def r14d(ctx):
         )
     # the dependents map must record EVERY consumer of a fusable node (the group condition subtracts group members from it;
     # a consumer that is not itself fusable - a reduction, a shuffle - is exactly the one that must keep the node out of a group)
+    dependencies = locals_defined_by(fp, "{}")
     rec = []
     for pt in flow.walk(fp):
         for n in ast.walk(pt.stmt) if isinstance(pt.stmt, ast.Expr) else []:
-            if isinstance(n, ast.Call) and isinstance(n.func, ast.Attribute) and n.func.attr == "add" and isinstance(n.func.value, ast.Subscript) and dotted(n.func.value.value) == "dependents":
+            if isinstance(n, ast.Call) and isinstance(n.func, ast.Attribute) and n.func.attr == "add" and isinstance(n.func.value, ast.Subscript) and dotted(n.func.value.value) == dependents:
                 rec.append((pt, n))
     if not rec:
         raise AnalysisError("anchor vanished: dependents[...].add(...) in _fusion_pass")
     for pt, n in rec:
         consumer = n.args[0] if n.args else None
         cname = names_in(consumer) if consumer is not None else set()
-        restricting = [ast.unparse(g) for g, pol in pt.guards if pol and (names_in(g) & cname) and ("dependencies" in ast.unparse(g) or "is_valid_blockwise_op" in ast.unparse(g))]
+        restricting = [ast.unparse(g) for g, pol in pt.guards if pol and (names_in(g) & cname) and ((names_in(g) & set(dependencies)) or "is_valid_blockwise_op" in ast.unparse(g))]
         (ctx.bad if restricting else ctx.ok)(
             "_expr.optimize_blockwise_fusion:dependents-complete",
             mod.loc(n),
